@@ -25,6 +25,7 @@ type raceCand struct {
 	loc     string
 	kindA   string
 	kindB   string
+	vec     []uint64
 }
 
 func shortFn(f string) string {
@@ -43,8 +44,41 @@ func scheduleQueries(harness string, tt *interp.ThreadTrace, seen map[string]boo
 	type lockey struct{ obj, slot int }
 	threadsOf := map[lockey]map[int]bool{}
 	writes := map[lockey]bool{}
+	// accesses of the main thread before it starts its first goroutine happen before every event of every other
+	// thread (all threads descend from that start): they cannot race and are left out
+	firstGo := len(tt.Threads[0])
+	for i, e := range tt.Threads[0] {
+		if e.Kind == "go" {
+			firstGo = i
+			break
+		}
+	}
+	// ... except lock operations whose section is still open at that start
+	openAtStart := map[int]bool{}
+	{
+		open := map[[2]int][]int{}
+		for i, e := range tt.Threads[0][:firstGo] {
+			k := [2]int{e.Obj, e.Slot}
+			switch e.Kind {
+			case "lock", "rlock":
+				open[k] = append(open[k], i)
+			case "unlock", "runlock":
+				if st := open[k]; len(st) > 0 {
+					open[k] = st[:len(st)-1]
+				}
+			}
+		}
+		for _, st := range open {
+			for _, i := range st {
+				openAtStart[i] = true
+			}
+		}
+	}
 	for ti, evs := range tt.Threads {
-		for _, e := range evs {
+		for ei, e := range evs {
+			if ti == 0 && ei < firstGo {
+				continue
+			}
 			if e.Kind == "R" || e.Kind == "W" {
 				k := lockey{e.Obj, e.Slot}
 				if threadsOf[k] == nil {
@@ -76,9 +110,9 @@ func scheduleQueries(harness string, tt *interp.ThreadTrace, seen map[string]boo
 	for ti, evs := range tt.Threads {
 		var l []ev
 		l = append(l, ev{Event: interp.Event{Kind: "begin"}, t: ti})
-		for _, e := range evs {
-			keep := true
-			if e.Kind == "R" || e.Kind == "W" {
+		for ei, e := range evs {
+			keep := !(ti == 0 && ei < firstGo) || (ti == 0 && openAtStart[ei]) // (sections closed before the first start order nothing later)
+			if keep && (e.Kind == "R" || e.Kind == "W") {
 				keep = shared[lockey{e.Obj, e.Slot}]
 			}
 			if keep {
@@ -102,9 +136,8 @@ func scheduleQueries(harness string, tt *interp.ThreadTrace, seen map[string]boo
 			fmt.Fprintf(&sb, "(assert (< %s %s))\n", l[i-1].name, l[i].name)
 		}
 	}
-	if len(all) > 1 {
-		fmt.Fprintf(&sb, "(assert (distinct %s))\n", strings.Join(all, " "))
-	}
+	// (no distinctness constraint is needed: every happens-before edge below is strict, so two events ordered through
+	// a third one are at least 2 apart and "b = a + 1" is satisfiable exactly when a and b are unordered)
 	// goroutine start, channel and waitgroup edges
 	closes := map[int]string{}
 	var sends = map[int][]string{}
@@ -188,8 +221,13 @@ func scheduleQueries(harness string, tt *interp.ThreadTrace, seen map[string]boo
 			}
 		}
 	}
+	secMemo := map[[2]int]map[[2]int]bool{}
 	inSection := func(e ev) map[[2]int]bool {
+		if m, ok := secMemo[[2]int{e.t, e.i}]; ok {
+			return m
+		}
 		res := map[[2]int]bool{}
+		defer func() { secMemo[[2]int{e.t, e.i}] = res }()
 		for k, secs := range sections {
 			for _, s := range secs {
 				if s.t == e.t && s.lo < e.i && e.i < s.hi && !s.read {
@@ -214,6 +252,8 @@ func scheduleQueries(harness string, tt *interp.ThreadTrace, seen map[string]boo
 		key  string
 	}
 	var queries []q
+	shapeCount := map[string]int{}
+	shapeLast := map[string]q{}
 	for _, evs := range byLoc {
 		for i := range evs {
 			for j := i + 1; j < len(evs); j++ {
@@ -240,9 +280,21 @@ func scheduleQueries(harness string, tt *interp.ThreadTrace, seen map[string]boo
 				if common {
 					continue
 				}
+				// one representative pair per (functions, location, threads, lock sets): further pairs of the same
+				// shape are in the same synchronisation context (at most 2 are asked, the first and the last)
+				shape := fmt.Sprintf("%s|%d|%d|%v|%v", key, a.t, b.t, lockSig(la), lockSig(lb))
+				if n := shapeCount[shape]; n >= 1 {
+					shapeLast[shape] = q{a, b, key}
+					shapeCount[shape] = n + 1
+					continue
+				}
+				shapeCount[shape] = 1
 				queries = append(queries, q{a, b, key})
 			}
 		}
+	}
+	for _, l := range shapeLast {
+		queries = append(queries, l)
 	}
 	if len(queries) == 0 {
 		return nil
@@ -279,7 +331,7 @@ func scheduleQueries(harness string, tt *interp.ThreadTrace, seen map[string]boo
 		case sym.Sat:
 			stats.sat++
 			seen[qu.key] = true
-			cands = append(cands, raceCand{harness: harness, key: qu.key, fa: shortFn(qu.a.Func), fb: shortFn(qu.b.Func), loc: qu.a.Name, kindA: qu.a.Kind, kindB: qu.b.Kind})
+			cands = append(cands, raceCand{harness: harness, key: qu.key, fa: shortFn(qu.a.Func), fb: shortFn(qu.b.Func), loc: qu.a.Name, kindA: qu.a.Kind, kindB: qu.b.Kind, vec: tt.Vector})
 		case sym.Unsat:
 			stats.unsat++
 			if os.Getenv("VERIF_DEBUG") != "" {
@@ -335,7 +387,16 @@ func raceDecide(p *interp.Program, runs []*harnessRun, thorough bool, known []Kn
 	}
 	sort.Strings(hs)
 	for _, h := range hs {
-		reports, err := nativeRaceRun(p, h)
+		var vecs [][]uint64
+		seenVec := map[string]bool{}
+		for _, c := range byHarness[h] {
+			k := fmt.Sprint(c.vec)
+			if !seenVec[k] && len(vecs) < 4 {
+				seenVec[k] = true
+				vecs = append(vecs, c.vec)
+			}
+		}
+		reports, err := nativeRaceRunVecs(p, h, vecs)
 		if err != nil {
 			problems = append(problems, "race replay: "+err.Error())
 			continue
@@ -384,9 +445,13 @@ func raceDecide(p *interp.Program, runs []*harnessRun, thorough bool, known []Kn
 }
 
 // nativeRaceRun executes one harness natively under `go test -race` and returns the race reports.
-func nativeRaceRun(p *interp.Program, harness string) ([]string, error) {
+func nativeRaceRunVecs(p *interp.Program, harness string, vecs [][]uint64) ([]string, error) {
+	raceVecs = vecs
+	defer func() { raceVecs = nil }()
 	return nativeRaceRunFn(p, harness, "")
 }
+
+var raceVecs [][]uint64
 
 // nativeRaceRunFn: with driver != "" the native-only concurrent driver of that name is called directly (it starts its
 // own goroutines); lines starting VERIF-MISMATCH in its output are returned as reports too.
@@ -394,9 +459,29 @@ func nativeRaceRunFn(p *interp.Program, harness, driver string) ([]string, error
 	dir, pn := harnessPkg(p, harness)
 	work, _ := os.MkdirTemp(filepath.Join(verifDir, ".work"), "race-")
 	defer os.RemoveAll(work)
-	src := "//go:build verif\n\npackage " + pn + "\n\nimport (\n\t\"os\"\n\t\"testing\"\n\n\t\"github.com/scigolib/hdf5/internal/vrt\"\n)\n\nfunc TestVerifRace(t *testing.T) {\n\t_ = os.Chdir(t.TempDir())\n\tout, _ := vrt.Run(" + harness + ", nil)\n\tt.Log(out)\n}\n"
+	src := "//go:build verif\n\npackage " + pn + "\n\nimport (\n\t\"os\"\n\t\"testing\"\n\n\t\"github.com/scigolib/hdf5/internal/vrt\"\n)\n\nfunc TestVerifRace(t *testing.T) {\n\tif wd, err := os.Getwd(); err == nil {\n\t\tos.Setenv(\"VERIF_PKG_DIR\", wd)\n\t}\n\t_ = os.Chdir(t.TempDir())\n\tout, _ := vrt.Run(" + harness + ", nil)\n\tt.Log(out)\n}\n"
+	if len(raceVecs) > 0 {
+		// the inputs of the paths the candidate schedules were found on; schedule-mode harnesses are repeated with
+		// random decisions at their schedule points
+		var vb strings.Builder
+		for _, v := range raceVecs {
+			vb.WriteString("\t\t{")
+			for i, x := range v {
+				if i > 0 {
+					vb.WriteString(", ")
+				}
+				fmt.Fprintf(&vb, "%d", x)
+			}
+			vb.WriteString("},\n")
+		}
+		reps := 1
+		if strings.Contains(harness, "_sched") {
+			reps = 8
+		}
+		src = "//go:build verif\n\npackage " + pn + "\n\nimport (\n\t\"os\"\n\t\"testing\"\n\n\t\"github.com/scigolib/hdf5/internal/vrt\"\n)\n\nfunc TestVerifRace(t *testing.T) {\n\tif wd, err := os.Getwd(); err == nil {\n\t\tos.Setenv(\"VERIF_PKG_DIR\", wd)\n\t}\n\t_ = os.Chdir(t.TempDir())\n\tvecs := [][]uint64{\n" + vb.String() + "\t}\n\tfor _, v := range vecs {\n\t\tfor r := 0; r < " + strconv.Itoa(reps) + "; r++ {\n\t\t\tout, _ := vrt.Run(" + harness + ", v)\n\t\t\tt.Log(out)\n\t\t}\n\t}\n}\n"
+	}
 	if driver != "" {
-		src = "//go:build verif\n\npackage " + pn + "\n\nimport (\n\t\"os\"\n\t\"testing\"\n)\n\nfunc TestVerifRace(t *testing.T) {\n\t_ = os.Chdir(t.TempDir())\n\tfor _, l := range " + driver + "() {\n\t\tprintln(\"VERIF-MISMATCH \" + l)\n\t}\n}\n"
+		src = "//go:build verif\n\npackage " + pn + "\n\nimport (\n\t\"os\"\n\t\"testing\"\n)\n\nfunc TestVerifRace(t *testing.T) {\n\tif wd, err := os.Getwd(); err == nil {\n\t\tos.Setenv(\"VERIF_PKG_DIR\", wd)\n\t}\n\t_ = os.Chdir(t.TempDir())\n\tfor _, l := range " + driver + "() {\n\t\tprintln(\"VERIF-MISMATCH \" + l)\n\t}\n}\n"
 	}
 	testFile := filepath.Join(work, "zz_verif_race_test.go")
 	os.WriteFile(testFile, []byte(src), 0o644)
@@ -424,7 +509,7 @@ func nativeRaceRunFn(p *interp.Program, harness, driver string) ([]string, error
 	os.WriteFile(ovFile, ovb, 0o644)
 	cmd := exec.Command("go", "test", "-race", "-tags", "verif", "-vet=off", "-count=1", "-run", "^TestVerifRace$", "-overlay", ovFile, "./"+dir)
 	cmd.Dir = repoDir
-	cmd.Env = append(goEnv(), "GORACE=halt_on_error=0", "VERIF_TIER="+os.Getenv("VERIF_TIER"))
+	cmd.Env = append(goEnv(), "GORACE=halt_on_error=0", "VERIF_TIER="+os.Getenv("VERIF_TIER"), "VERIF_SCHED_RANDOM=1")
 	var buf bytes.Buffer
 	cmd.Stdout = &buf
 	cmd.Stderr = &buf
@@ -454,4 +539,13 @@ func nativeRaceRunFn(p *interp.Program, harness, driver string) ([]string, error
 		}
 	}
 	return reports, nil
+}
+
+func lockSig(m map[[2]int]bool) string {
+	var ks []string
+	for k := range m {
+		ks = append(ks, fmt.Sprintf("%d.%d", k[0], k[1]))
+	}
+	sort.Strings(ks)
+	return strings.Join(ks, ",")
 }
